@@ -5,14 +5,16 @@
     dev <limit> <rejectCc> <short 0|1> <wmax> <id>:<hex>*   set the device (kept as initial state)   -> ok
     x <cmd> <hex>                                           one request to the current device        -> <hex>
     dump                                                    current contents                         -> <id>:<hex>*
-    faults <k>:c:<cc>|<k>:s:<n> …  (or -)   install a fault plan on the CURRENT device, request counter := 0  -> ok
-                                            (request k answers <cc> unprocessed / write k stores only n bytes)
+    faults <k>:c:<cc>|<k>:s:<n>|<k>:a:<n> …  (or -)   install a fault plan on the CURRENT device, request counter := 0  -> ok
+                                            (request k answers <cc> unprocessed / write k stores only n bytes /
+                                             write k is stored as sent but acknowledged with count n)
     snap                                    INITIAL := CURRENT (histories: the model runs one step from here)  -> ok
     run <flags 0..3> <op> …      model on the INITIAL device -> <outcome> | <trace> | <contents>
         flags: bit 0 = get_fru_multirecord_area as shipped, bit 1 = _read_fru_area rejects area length 0
         read <id> <off|n> <cnt>      read_fru_data           outcome  ok <hex>
         full <id>                    read_fru_data_full
-        write <id> <off> <hex>       write_fru_data          outcome  ok -
+        write <id> <off> <hex> [wl]  write_fru_data          outcome  ok -     (wl: the caller set Fru.write_length = wl;
+                                                                                default: the generated constant)
         hdr <id>                     get_fru_inventory_header         ok <i>,<c>,<b>,<p>,<m>   (n = None)
         area <id> <c|b|p>            get_fru_{chassis,board,product}_area
         mr <id>                      get_fru_multirecord_area
@@ -40,6 +42,10 @@ def parseFault (s : String) : Option (Nat × Fault) :=
     let k ← k.toNat?
     let v ← v.toNat?
     pure (k, .short v)
+  | [k, "a", v] => do
+    let k ← k.toNat?
+    let v ← v.toNat?
+    pure (k, .ack v)
   | _ => none
 
 def parseFru (s : String) : Option (Nat × List Nat) :=
@@ -94,6 +100,12 @@ def runOp (d : FaultyDev) (shipped lenChk : Bool) (op : List String) : String :=
     match id.toNat?, off.toNat?, ofHex h with
     | some id, some off, some data => finish (writeFruData cfg respond w data off id) (fun _ => "-")
     | _, _, _ => "bad-op"
+  | ["write", id, off, h, wl] =>
+    -- the caller assigned the public attribute `write_length` before the call
+    match id.toNat?, off.toNat?, ofHex h, wl.toNat? with
+    | some id, some off, some data, some wl =>
+      finish (writeFruData { cfg with writeLen := wl } respond w data off id) (fun _ => "-")
+    | _, _, _, _ => "bad-op"
   | ["hdr", id] =>
     match id.toNat? with
     | some id => finish (getHeader cfg respond w id) fun h =>
